@@ -445,3 +445,128 @@ Proof.
   exists y. split; [apply clos_rtn1_rt; exact Hy|].
   destruct Hyz as (l & E & Hin). exists l, (TRef z). split; [exact E|]. split; [exact Hin|left; reflexivity].
 Qed.
+
+(** * the effective super graph is acyclic *)
+
+(** declared successors of a class (the ids [super_reaches] follows) *)
+Definition succs (G : world) (x : N) : list N :=
+  match raw_supers G x with Some l => super_ids l | None => [] end.
+
+(** what a failed walk leaves behind: the nodes added to [visited] are not the target and all their
+    declared successors have been visited *)
+Definition closed_from (G : world) (tgt : N) (vis v' : list N) : Prop :=
+  (forall x, In x vis -> In x v') /\
+  (forall x, In x v' -> ~ In x vis -> x <> tgt /\ forall y, In y (succs G x) -> In y v').
+
+Lemma closed_from_trans : forall G tgt a b c, closed_from G tgt a b -> closed_from G tgt b c -> closed_from G tgt a c.
+Proof.
+  intros G tgt a b c [S1 C1] [S2 C2]. split; [auto|].
+  intros x Hx Hna. destruct (in_dec N.eq_dec x b) as [Hb|Hnb].
+  - destruct (C1 x Hb Hna) as [Hne Hs]. split; [exact Hne|]. intros y Hy. apply S2, Hs, Hy.
+  - apply C2; assumption.
+Qed.
+
+Lemma super_reaches_false_closed : forall G fuel cur tgt vis v',
+  super_reaches G fuel cur tgt vis = Some (false, v') ->
+  closed_from G tgt vis v' /\ In cur v'.
+Proof.
+  intros G fuel. induction fuel as [|f IH]; intros cur tgt vis v' H; [discriminate|].
+  cbn [super_reaches] in H.
+  destruct (N.eqb_spec cur tgt) as [E|Hne]; [discriminate|].
+  change (existsb (N.eqb cur) vis) with (nmem cur vis) in H.
+  destruct (nmem cur vis) eqn:Ev.
+  - inversion H; subst v'. apply nmem_In in Ev. split; [|exact Ev].
+    split; [auto|]. intros x Hx Hn. contradiction.
+  - apply nmem_false in Ev.
+    destruct (raw_supers G cur) as [sups|] eqn:Er.
+    2:{ inversion H; subst v'. split; [|left; reflexivity]. split; [intros x Hx; right; exact Hx|].
+        intros x [<-|Hx] Hn; [|contradiction]. split; [exact Hne|]. unfold succs. rewrite Er. intros y []. }
+    assert (Hsucc : succs G cur = super_ids sups) by (unfold succs; rewrite Er; reflexivity).
+    (* the loop over the successors *)
+    assert (Hloop : forall ids v0 v1,
+              (fix any (ids : list N) (visited : list N) : option (bool * list N) :=
+                 match ids with
+                 | [] => Some (false, visited)
+                 | i :: r =>
+                     match super_reaches G f i tgt visited with
+                     | None => None
+                     | Some (true, v) => Some (true, v)
+                     | Some (false, v) => any r v
+                     end
+                 end) ids v0 = Some (false, v1) ->
+              closed_from G tgt v0 v1 /\ forall y, In y ids -> In y v1).
+    { induction ids as [|i r IHr]; intros v0 v1 Hl.
+      - inversion Hl; subst. split; [split; [auto|intros x Hx Hn; contradiction]|intros y []].
+      - destruct (super_reaches G f i tgt v0) as [[[|] v]|] eqn:Ei; try discriminate.
+        destruct (IH _ _ _ _ Ei) as [Ci Hi]. destruct (IHr _ _ Hl) as [Cr Hr].
+        split; [eapply closed_from_trans; eassumption|].
+        intros y [<-|Hy]; [destruct Cr as [S _]; apply S; exact Hi|apply Hr; exact Hy]. }
+    destruct (Hloop _ _ _ H) as [[S C] Hids].
+    split; [|apply S; left; reflexivity].
+    split; [intros x Hx; apply S; right; exact Hx|].
+    intros x Hx Hn. destruct (N.eq_dec x cur) as [->|Hxc].
+    + split; [exact Hne|]. rewrite Hsucc. exact Hids.
+    + apply C; [exact Hx|]. intros [E|Hin]; [congruence|contradiction].
+Qed.
+
+Definition raw_edge (G : world) (a b : N) : Prop := In b (succs G a).
+
+(** completeness of [super_reaches] from an empty visited set: a declared path to the target is found *)
+Lemma super_reaches_complete : forall G fuel cur tgt v',
+  super_reaches G fuel cur tgt [] = Some (false, v') ->
+  ~ clos_refl_trans N (raw_edge G) cur tgt.
+Proof.
+  intros G fuel cur tgt v' H Hreach.
+  destruct (super_reaches_false_closed _ _ _ _ _ _ H) as [[_ C] Hcur].
+  assert (Hall : forall x, clos_refl_trans N (raw_edge G) cur x -> In x v').
+  { intros x Hx. apply clos_rt_rtn1 in Hx. induction Hx as [|y z Hyz _ IHx]; [exact Hcur|].
+    destruct (C y IHx) as [_ Hs]; [intros []|]. apply Hs. exact Hyz. }
+  destruct (C tgt (Hall tgt Hreach)) as [Hne _]; [intros []|]. apply Hne. reflexivity.
+Qed.
+
+(** an effective edge is a declared edge that the cycle filter kept *)
+Lemma eff_edge_kept : forall G a b, edge G a b ->
+  raw_edge G a b /\ is_cyclic_super_edge G a (TRef b) = Some false.
+Proof.
+  intros G a b (l & E & Hin). unfold eff_supers in E.
+  destruct (raw_supers G a) as [raw|] eqn:Er; [|discriminate].
+  assert (Hgo : forall raw l,
+            (fix go (l0 : list ty) : option (option (list ty)) :=
+               match l0 with
+               | [] => Some (Some [])
+               | s :: r =>
+                   match is_cyclic_super_edge G a s, go r with
+                   | Some c, Some (Some r') => Some (Some (if c then r' else s :: r'))
+                   | _, _ => None
+                   end
+               end) raw = Some (Some l) ->
+            forall t, In t l -> In t raw /\ is_cyclic_super_edge G a t = Some false).
+  { clear. induction raw as [|s r IH]; intros l E t Ht.
+    - inversion E; subst. destruct Ht.
+    - destruct (is_cyclic_super_edge G a s) as [c|] eqn:Ec; [|discriminate].
+      match type of E with match ?g with _ => _ end = _ => destruct g as [[r'|]|] eqn:Eg end; try discriminate.
+      inversion E; subst l. destruct c.
+      + destruct (IH r' eq_refl t Ht) as [H1 H2]. split; [right; exact H1|exact H2].
+      + destruct Ht as [<-|Ht]; [split; [left; reflexivity|exact Ec]|].
+        destruct (IH r' eq_refl t Ht) as [H1 H2]. split; [right; exact H1|exact H2]. }
+  destruct (Hgo raw l E (TRef b) Hin) as [Hraw Hc].
+  split; [|exact Hc]. unfold raw_edge, succs. rewrite Er. apply super_ids_In. exact Hraw.
+Qed.
+
+(** no class reaches itself through effective edges: [get_super_types_iter] yields an acyclic graph *)
+Lemma effective_supers_acyclic : forall G a, ~ clos_trans N (edge G) a a.
+Proof.
+  intros G a H. apply clos_trans_t1n in H.
+  assert (Hraw : forall x y, clos_trans_1n N (edge G) x y -> clos_refl_trans N (raw_edge G) x y).
+  { intros x y Hxy. induction Hxy as [x y Hxy|x y z Hxy _ IH].
+    - apply rt_step. apply eff_edge_kept. exact Hxy.
+    - eapply rt_trans; [apply rt_step; apply eff_edge_kept; exact Hxy|exact IH]. }
+  assert (Hsplit : exists b, edge G a b /\ clos_refl_trans N (raw_edge G) b a).
+  { inversion H as [y Hay|y z Hay Hya]; subst.
+    - exists a. split; [exact Hay|apply rt_refl].
+    - exists y. split; [exact Hay|apply Hraw; exact Hya]. }
+  destruct Hsplit as (b & Hab & Hba).
+  destruct (eff_edge_kept G a b Hab) as [_ Hc]. unfold is_cyclic_super_edge in Hc. cbn [super_id] in Hc.
+  destruct (super_reaches G (dfs_fuel G) b a []) as [[r v]|] eqn:Es; [|discriminate].
+  inversion Hc; subst r. eapply super_reaches_complete; eassumption.
+Qed.
